@@ -65,6 +65,8 @@ class SimSelector:
         self._epoll: Dict[int, Tuple[OFD, int]] = {}
         self._map: Optional[_Map] = _Map(self)
         self._closed = False
+        self._spin_sig: Any = None
+        self._spin_n = 0
         self._proc = w.cur_proc()
         w.stats['selectors'] += 1
         w.selectors.append(self)
@@ -202,7 +204,22 @@ class SimSelector:
             # peers run concurrently with the caller: a select() that returns at
             # once is still a scheduling point, otherwise a level-triggered
             # descriptor would let the caller starve everybody else
-            w.block(None, None, 'select-ready')
+            sig = (w.change_seq, tuple((k.fd, m) for k, m in ready))
+            if sig == self._spin_sig:
+                self._spin_n += 1
+            else:
+                self._spin_sig = sig
+                self._spin_n = 0
+            if self._spin_n >= 3:
+                # the caller spins on a level-triggered descriptor it does not
+                # service (nothing in the world changed between its last calls):
+                # identical iterations are fast-forwarded, one select period each
+                if self._spin_n == 3:
+                    w.stats['probe:busy_spin'] += 1
+                cs = w.change_seq
+                w.block(lambda: w.change_seq != cs, 0.025, 'select-spin')
+            else:
+                w.block(None, None, 'select-ready')
             ready = self._ready()
         if len(ready) > 1 and w.shuffle_ready:
             w.aux_rng.shuffle(ready)
